@@ -95,6 +95,18 @@ class PriorityID(enum.IntEnum):
     AT_PARSE = 2
 
 
+def docstring_literal(doc: str):
+    """Return a string literal that evaluates to ``doc``
+
+    Triple double quotes are used unless ``doc`` contains characters
+    that would change or break the literal.
+    """
+    if "\\" in doc or '"""' in doc or doc[-1:] == '"':
+        return repr(doc)
+    else:
+        return '"""' + doc + '"""'
+
+
 class SourceStructure:
 
     def __init__(self, source: str):
@@ -438,7 +450,7 @@ class ModelEncoder(BaseEncoder):
     def encode(self):
         lines = []
         if self.model.doc is not None:
-            lines.append("\"\"\"" + self.model.doc + "\"\"\"")
+            lines.append(docstring_literal(self.model.doc))
 
         lines.append("from modelx.serialize.jsonvalues import *")
         lines.append("_name = \"%s\"" % self.model.name)
@@ -496,7 +508,7 @@ class SpaceEncoder(BaseEncoder):
 
         lines = []
         if self.space.doc is not None:
-            lines.append("\"\"\"" + self.space.doc + "\"\"\"")
+            lines.append(docstring_literal(self.space.doc))
 
         lines.append("from modelx.serialize.jsonvalues import *")
 
@@ -640,7 +652,7 @@ class CellsEncoder(BaseEncoder):
             if self.target.formula.source[:6] == "lambda":
                 line = self.target.name + " = " + self.target.formula.source
                 if self.target.doc:
-                    line += "\n" + ("\"\"\"%s\"\"\"" % self.target.doc)
+                    line += "\n" + docstring_literal(self.target.doc)
                 lines.append(line)
             else:
                 lines.append(self.target.formula.source)
